@@ -228,6 +228,14 @@ FRAGMENTS = [
                          "  end do", "end do"]),
     ("nest_innerstep", ["do j = 1, 5", "  do i = 1, 6, 40",
                         "    c(i, j) = 1.0", "  end do", "end do"]),
+    ("nest_innerstep8", ["do j = 1, 5", "  do i = 1, 6, 8",
+                         "    c(i, j) = 1.0", "  end do", "end do"]),
+    ("nest_innerstep3", ["do j = 1, 5", "  do i = 1, 6, 3",
+                         "    c(i, j) = 1.0", "  end do", "end do"]),
+    ("nest_outerstep3", ["do j = 1, 5, 3", "  do i = 1, 6",
+                         "    c(i, j) = 1.0", "  end do", "end do"]),
+    ("nest_steps_2_5", ["do j = 1, 5, 2", "  do i = 1, 6, 5",
+                        "    c(i, j) = 1.0", "  end do", "end do"]),
     ("nest_innervarstep", ["do j = 1, 5", "  do i = 1, 6, m",
                            "    c(i, j) = 1.0", "  end do", "end do"]),
     ("nest_inner_bound_written", ["do j = 1, 5", "  do i = 1, k",
